@@ -70,6 +70,8 @@ def run_verus_unit(unit, tier):
         return r
     r['cmd'] = an['cmd']
     r['smt_ms'] = an['smt_ms']
+    if g.get('lost_anchors'):
+        r['notes'].append('proof-hint anchors not found in the current text (hints dropped): ' + '; '.join(g['lost_anchors']))
     r['functions'] = g['functions']
     r['assumptions'] = V.scan_assumptions(g)
     r['fn_results'] = an['fn_results']
